@@ -388,9 +388,16 @@ int self() { return tl_self; }
 
 void user_point(const char*) { Runtime::point(K_USER, nullptr); }
 
+static ::std::vector<::std::pair<const char*, const char*>>& watches() { static ::std::vector<::std::pair<const char*, const char*>> w; return w; }
+void watch(const void* b, const void* e) { watches().push_back({(const char*)b, (const char*)e}); }
+void clear_watches() { watches().clear(); }
+
 void access(const void* addr, bool write) {
     auto& s = S();
     if (!s.active) return;
+    bool in = false;
+    for (auto& w : watches()) if ((const char*)addr >= w.first && (const char*)addr < w.second) { in = true; break; }
+    if (!in) return;
     ::std::unique_lock<::std::mutex> lk(s.m);
     int me = tl_self;
     Shadow& sh = s.shadow[addr];
